@@ -82,8 +82,7 @@ Proof.
   - intros H. destruct (mem_str k methods) eqn:E; [|reflexivity]. exfalso. apply H. apply mem_str_In. exact E.
 Qed.
 
-Lemma starred_has_no_visitor : visitor_crashes annotation_visitor_methods "Starred" = true.
-Proof. vm_compute. reflexivity. Qed.
+(* (a lemma stating that the annotation visitor has no visit_Starred was removed: fix dc76e76 added one) *)
 
 (* ---- error codes ------------------------------------------------------ *)
 Fixpoint nodup_str (l : list string) : bool :=
